@@ -1179,6 +1179,11 @@ class Executor:
             return self._boolval(self.truth(self.expr(e["r"], env)))
         l = deref(self.expr(e["l"], env))
         r = deref(self.expr(e["r"], env))
+        bh = getattr(self, "binop_hook", None)
+        if bh is not None:
+            hr = bh(self, op, l, r)      # a driver may give comparisons of its own value kinds a meaning
+            if hr is not NotImplemented:
+                return hr
         if op == "==":
             return self._boolval(self.eq(l, r))
         if op == "!=":
